@@ -27,9 +27,11 @@ import (
 	chain "github.com/comdex-official/comdex/app"
 	"github.com/comdex-official/comdex/app/wasm/bindings"
 	assettypes "github.com/comdex-official/comdex/x/asset/types"
+	"github.com/comdex-official/comdex/x/auction"
 	auctiontypes "github.com/comdex-official/comdex/x/auction/types"
 	auctionsV2types "github.com/comdex-official/comdex/x/auctionsV2/types"
 	bandtypes "github.com/comdex-official/comdex/x/bandoracle/types"
+	collectortypes "github.com/comdex-official/comdex/x/collector/types"
 	esmtypes "github.com/comdex-official/comdex/x/esm/types"
 	lendtypes "github.com/comdex-official/comdex/x/lend/types"
 	liquidationtypes "github.com/comdex-official/comdex/x/liquidation/types"
@@ -58,6 +60,68 @@ var c20Stores = [][2]string{
 }
 
 type c20KV struct{ k, v []byte }
+
+var c20Pop *c20Population
+
+// set by the migration cases: the two chains come from two app.Setup calls
+var c20SeparateSetups bool
+
+// c20MatchForeignAccounts renames, in bb, every address that holds something on one side only to the address on the other side
+// that holds exactly the same coins (the random genesis account of app.Setup); unmatched ones stay and are reported as differences.
+func c20MatchForeignAccounts(ba, bb map[string]string) {
+	holdings := func(m map[string]string, other map[string]string) map[string][]string {
+		addrs := map[string]bool{}
+		for k := range other {
+			addrs[strings.SplitN(k, "/", 2)[0]] = true
+		}
+		out := map[string][]string{}
+		for k, v := range m {
+			p := strings.SplitN(k, "/", 2)
+			if !addrs[p[0]] {
+				out[p[0]] = append(out[p[0]], p[1]+"="+v)
+			}
+		}
+		for a := range out {
+			sort.Strings(out[a])
+		}
+		return out
+	}
+	ha, hb := holdings(ba, bb), holdings(bb, ba)
+	used := map[string]bool{}
+	var bs []string
+	for b := range hb {
+		bs = append(bs, b)
+	}
+	sort.Strings(bs)
+	var as []string
+	for a := range ha {
+		as = append(as, a)
+	}
+	sort.Strings(as)
+	for _, b := range bs {
+		for _, a := range as {
+			if !used[a] && strings.Join(ha[a], ",") == strings.Join(hb[b], ",") {
+				used[a] = true
+				for _, dv := range hb[b] {
+					d := strings.SplitN(dv, "=", 2)
+					bb[a+"/"+d[0]] = d[1]
+					delete(bb, b+"/"+d[0])
+				}
+				break
+			}
+		}
+	}
+}
+
+// is this genesis key (= module name) one of the 15 DeFi modules?
+func c20IsDefi(name string) bool {
+	for _, s := range c20Stores {
+		if s[1] == name {
+			return true
+		}
+	}
+	return false
+}
 
 // module directory of a module (= store) name; other modules keep their name
 func c20ModuleDir(name string) string {
@@ -131,7 +195,27 @@ func (w *c20World) deliver(msg sdk.Msg) (ok bool, detail string) {
 	return c20Deliver(w.app, w.ctx, msg)
 }
 
+// message types delivered by the continuation workload on the ORIGINAL chain (type URL -> accepted / refused)
+var (
+	c20ContApp  *chain.App
+	c20ContMsgs = map[string]*[2]int{}
+)
+
 func c20Deliver(app *chain.App, ctx sdk.Context, msg sdk.Msg) (ok bool, detail string) {
+	if app == c20ContApp && app != nil {
+		defer func() {
+			st := c20ContMsgs[sdk.MsgTypeURL(msg)]
+			if st == nil {
+				st = &[2]int{}
+				c20ContMsgs[sdk.MsgTypeURL(msg)] = st
+			}
+			if ok {
+				st[0]++
+			} else {
+				st[1]++
+			}
+		}()
+	}
 	if err := msg.ValidateBasic(); err != nil {
 		return false, "validate: " + err.Error()
 	}
@@ -243,7 +327,9 @@ func (w *c20World) buildBase() {
 	c2 := w.asset("CASSETTWO", "ucasset2", 2000000)
 	c3 := w.asset("CASSETTHRE", "ucasset3", 2000000)
 	c4 := w.asset("CASSETFOUR", "ucasset4", 2000000)
-	w.asset("STABLEIN", "ustablein", 1000000) // 9
+	w.asset("STABLEIN", "ustablein", 1000000)        // 9
+	a5 := w.asset("ASSETFIVE", "uasset5", 2000000)   // 10
+	c5 := w.asset("CASSETFIVE", "ucasset5", 2000000) // 11
 	pool1 := []*lendtypes.AssetDataPoolMapping{
 		{AssetID: a1, AssetTransitType: 3, SupplyCap: sdk.NewDec(5000000000000000000)},
 		{AssetID: a2, AssetTransitType: 1, SupplyCap: sdk.NewDec(1000000000000000000)},
@@ -273,6 +359,12 @@ func (w *c20World) buildBase() {
 	})
 	w.step("lend pool 2", func() error {
 		return poolPairs(rates(a4, "0.65", "0.002", "0.08", "1.5", false, "0.0", "0.0", "0.0", "0.6", "0.65", "0.05", "0.05", "0.2", c4), "osmo", "OSMO-ATOM-CMST", pool2)
+	})
+	// a third lending pool without positions: depreciated by governance and deleted by the begin blocker (the pool id counter is
+	// then ahead of every live pool)
+	w.step("lend pool 3", func() error {
+		return poolPairs(rates(a5, "0.65", "0.002", "0.08", "1.5", false, "0.0", "0.0", "0.0", "0.6", "0.65", "0.05", "0.05", "0.2", c5), "atom", "ATOM-CMDX-CMST",
+			[]*lendtypes.AssetDataPoolMapping{{AssetID: a5, AssetTransitType: 1, SupplyCap: sdk.NewDec(3000000000000000000)}, pool1[0], pool1[2]})
 	})
 	w.appRec("cswap", "cswap")
 	w.appRec("harbor", "hbr")
@@ -305,6 +397,8 @@ func (w *c20World) buildPositions() {
 	w.msg("fund mod 2/1", lendtypes.NewMsgFundModuleAccounts(2, a1, u1, coin("uasset1", 10000000000)))
 	w.msg("fund mod 2/4", lendtypes.NewMsgFundModuleAccounts(2, a4, u1, coin("uasset4", 10000000000)))
 	w.msg("fund reserve", lendtypes.NewMsgFundReserveAccounts(a1, u1, coin("uasset1", 1000000)))
+	w.msg("fund reserve a2", lendtypes.NewMsgFundReserveAccounts(a2, u1, coin("uasset2", 100000000)))
+	w.msg("fund reserve a4", lendtypes.NewMsgFundReserveAccounts(a4, u1, coin("uasset4", 100000000)))
 	w.msg("borrow 1", lendtypes.NewMsgBorrow(u1, 1, 1, false, coin("ucasset1", 100000000), coin("uasset2", 70000000)))
 	w.msg("borrow 2", lendtypes.NewMsgBorrow(u2, 3, 1, false, coin("ucasset1", 1000000000), coin("uasset2", 700000000)))
 	w.msg("borrow 3", lendtypes.NewMsgBorrow(u4, 4, 1, false, coin("ucasset1", 500000000), coin("uasset2", 350000000)))
@@ -363,6 +457,9 @@ func (w *c20World) buildPositions() {
 	})
 	w.msg("vault 5 (V1)", mk(w.u[0], 4, 3, 1000000, 1000000))
 	w.msg("vault 6 (V1)", mk(w.u[1], 4, 3, 1000000, 1000000))
+	w.msg("vault 7 (V1)", mk(w.u[2], 4, 3, 1000000, 1000000))
+	// (the epoch counter is shared by all kinds of external rewards: record ids, epoch ids, app and product ids run apart)
+	w.msg("ext rewards lend 2", rewardstypes.NewMsgActivateExternalRewardsLend(3, 2, []uint64{4}, 1, 1, coin("uasset4", 3000000), 1, 10, 1, w.u[0]))
 	w.msg("ext rewards vault", rewardstypes.NewMsgActivateExternalRewardsVault(4, 3, coin("ucmdx", 2000000), 10, 1, w.u[0]))
 	w.step("whitelist vault interest", func() error { return w.app.Rewardskeeper.WhitelistAppIDVault(w.ctx, 2) })
 
@@ -372,15 +469,25 @@ func (w *c20World) buildPositions() {
 	w.msg("limit bid", auctionsV2types.NewMsgDepositLimitBid(u3, a2, a3, sdk.NewInt(2), coin("uasset3", 1000000)))
 	w.msg("limit bid 2", auctionsV2types.NewMsgDepositLimitBid(u4, a2, a3, sdk.NewInt(3), coin("uasset3", 2000000)))
 	w.msg("limit bid 3 (same bidder, other premium)", auctionsV2types.NewMsgDepositLimitBid(u3, a2, a3, sdk.NewInt(5), coin("uasset3", 1500000)))
+	w.msg("limit bid 4 (cancelled)", auctionsV2types.NewMsgDepositLimitBid(u2, a2, a3, sdk.NewInt(4), coin("uasset3", 800000)))
+	w.msg("limit bid 4 cancel", auctionsV2types.NewMsgCancelLimitBid(u2, a2, a3, sdk.NewInt(4)))
 	w.msg("app reserve funds", liqV2types.NewMsgAppReserveFundsRequest(u1, 2, a3, coin("uasset3", 5000000)))
 	// borrow 1 is liquidated through the second generation, borrow 2 and vaults 5,6 through the first generation: its
 	// sweeps no longer run in BeginBlock (x/liquidation/module.go, x/auction/module.go) but its user messages are still routed
 	w.price(a1, 600000)
 	w.msg("liquidate borrow 1 (V2)", liqV2types.NewMsgLiquidateInternalKeeperRequest(w.u[3], 1, 1))
+	// vault and borrow liquidations alternate: locked vault ids and auction ids of one kind run apart (dutch auction 2 = locked
+	// vault 3, lend auction 1 = locked vault 2)
 	w.msg("V1 liquidate vault 5", liquidationtypes.NewMsgLiquidateRequest(w.u[3], 4, 5))
-	w.msg("V1 liquidate vault 6", liquidationtypes.NewMsgLiquidateRequest(w.u[3], 4, 6))
 	w.msg("V1 liquidate borrow 2", liquidationtypes.NewMsgLiquidateBorrowRequest(w.u[3], 2))
+	w.msg("V1 liquidate vault 6", liquidationtypes.NewMsgLiquidateRequest(w.u[3], 4, 6))
 	w.msg("V1 liquidate borrow 3", liquidationtypes.NewMsgLiquidateBorrowRequest(w.u[2], 3))
+	w.msg("V1 liquidate vault 7", liquidationtypes.NewMsgLiquidateRequest(w.u[3], 4, 7))
+	w.step("lend pool 3 depreciate", func() error {
+		return w.app.LendKeeper.AddPoolDepreciate(w.ctx, lendtypes.PoolDepreciate{IndividualPoolDepreciate: []lendtypes.IndividualPoolDepreciate{{PoolID: 3, IsPoolDepreciated: false}}})
+	})
+	// what x/lend BeginBlocker does at every height divisible by 14400 (x/lend/abci.go:16-17)
+	w.step("lend pool 3 delete", func() error { return w.app.LendKeeper.DeletePoolAndTransferInterest(w.ctx) })
 }
 
 // ---- phase 2: locker, collector, rewards ------------------------------------------------------------------------------
@@ -419,7 +526,7 @@ func (w *c20World) buildLocker() {
 		return err
 	})
 	w.step("locker rewards whitelist", func() error { return w.app.Rewardskeeper.WhitelistAssetForInternalRewards(w.ctx, 2, 3) })
-	w.msg("locker 1", lockertypes.NewMsgCreateLockerRequest(u1, sdk.NewInt(5000000), 3, 2))
+	w.msg("locker 1", lockertypes.NewMsgCreateLockerRequest(u1, sdk.NewInt(500000000), 3, 2))
 	w.msg("locker 2", lockertypes.NewMsgCreateLockerRequest(u2, sdk.NewInt(3000000), 3, 2))
 	w.msg("locker 3", lockertypes.NewMsgCreateLockerRequest(w.u[2].String(), sdk.NewInt(2000000), 3, 2))
 	// the same depositor with a locker in a second asset of the same app
@@ -449,14 +556,28 @@ func (w *c20World) buildLiquidity() {
 	w.msg("liq pair 3 (no pool)", liquiditytypes.NewMsgCreatePair(1, w.u[0], "uasset1", "uasset3")) // pair and pool counters differ
 	w.msg("liq pool", liquiditytypes.NewMsgCreatePool(1, w.u[0], 1, coins("1000000000000uasset1,1000000000000uasset2")))
 	w.msg("liq pool 2", liquiditytypes.NewMsgCreatePool(1, w.u[0], 2, coins("1000000000000uasset3,1000000000000uasset4")))
-	// the same farmer in two pools of one app (these positions are active by the time of the export), a second farmer in one
+	// a ranged pool next to the basic pool of pair 1 (pool id 3 != pair id 1) and a fourth pair without pool (pair counter 4, pool counter 3)
+	w.msg("liq ranged pool 3 (pair 1)", liquiditytypes.NewMsgCreateRangedPool(1, w.u[0], 1, coins("500000000000uasset1,500000000000uasset2"),
+		c20Dec("0.5"), c20Dec("2.0"), c20Dec("1.0")))
+	w.msg("liq pair 4 (no pool)", liquiditytypes.NewMsgCreatePair(1, w.u[0], "uasset2", "uasset3"))
+	// the same farmer in the pools of one app (these positions are active by the time of the export), a second farmer in two
 	w.msg("liq farm u1", liquiditytypes.NewMsgFarm(1, 1, w.u[0], sdk.NewCoin("pool1-1", sdk.NewInt(1000000000))))
 	w.msg("liq farm u1 pool 2", liquiditytypes.NewMsgFarm(1, 2, w.u[0], sdk.NewCoin("pool1-2", sdk.NewInt(700000000))))
+	w.msg("liq farm u1 pool 3", liquiditytypes.NewMsgFarm(1, 3, w.u[0], sdk.NewCoin("pool1-3", sdk.NewInt(600000000))))
 	w.step("liq transfer pool coin", func() error {
-		return w.app.BankKeeper.SendCoins(w.ctx, w.u[0], w.u[1], sdk.NewCoins(sdk.NewCoin("pool1-1", sdk.NewInt(50000000))))
+		if err := w.app.BankKeeper.SendCoins(w.ctx, w.u[0], w.u[1], sdk.NewCoins(sdk.NewCoin("pool1-1", sdk.NewInt(50000000)), sdk.NewCoin("pool1-3", sdk.NewInt(40000000)))); err != nil {
+			return err
+		}
+		return w.app.BankKeeper.SendCoins(w.ctx, w.u[0], w.u[2], sdk.NewCoins(sdk.NewCoin("pool1-3", sdk.NewInt(20000000))))
 	})
 	w.msg("liq farm u2", liquiditytypes.NewMsgFarm(1, 1, w.u[1], sdk.NewCoin("pool1-1", sdk.NewInt(30000000))))
+	w.msg("liq farm u2 pool 3", liquiditytypes.NewMsgFarm(1, 3, w.u[1], sdk.NewCoin("pool1-3", sdk.NewInt(25000000))))
+	w.msg("liq crossing order (last price)", liquiditytypes.NewMsgLimitOrder(1, w.u[3], 1, liquiditytypes.OrderDirectionBuy, sdk.NewCoin("uasset2", sdk.NewInt(1023060)),
+		"uasset1", c20Dec("1.02"), sdk.NewInt(1000000), 0))
 	w.msg("ext rewards lend", rewardstypes.NewMsgActivateExternalRewardsLend(3, 1, []uint64{1, 2}, 1, 1, sdk.NewCoin("uasset4", sdk.NewInt(5000000)), 1, 10, 1, w.u[0]))
+	w.msg("gauge master pool", &rewardstypes.MsgCreateGauge{From: w.u[0].String(), AppId: 1, StartTime: w.ctx.BlockTime().Add(2 * time.Hour), GaugeTypeId: 1,
+		TriggerDuration: 24 * time.Hour, DepositAmount: sdk.NewCoin("ucmdx", sdk.NewInt(20000000)), TotalTriggers: 4,
+		Kind: &rewardstypes.MsgCreateGauge_LiquidityMetaData{LiquidityMetaData: &rewardstypes.LiquidtyGaugeMetaData{PoolId: 3, IsMasterPool: true, ChildPoolIds: []uint64{1, 2}}}})
 	w.msg("gauge", &rewardstypes.MsgCreateGauge{From: w.u[0].String(), AppId: 1, StartTime: w.ctx.BlockTime().Add(time.Hour), GaugeTypeId: 1,
 		TriggerDuration: 24 * time.Hour, DepositAmount: sdk.NewCoin("ucmdx", sdk.NewInt(10000000)), TotalTriggers: 5,
 		Kind: &rewardstypes.MsgCreateGauge_LiquidityMetaData{LiquidityMetaData: &rewardstypes.LiquidtyGaugeMetaData{PoolId: 1, IsMasterPool: false}}})
@@ -467,15 +588,34 @@ func (w *c20World) buildLiquidityPending() {
 	coins := func(s string) sdk.Coins { c, _ := sdk.ParseCoinsNormalized(s); return c }
 	w.msg("liq deposit", liquiditytypes.NewMsgDeposit(1, w.u[1], 1, coins("50000000uasset1,50000000uasset2")))
 	w.msg("liq withdraw", liquiditytypes.NewMsgWithdraw(1, w.u[0], 1, sdk.NewCoin("pool1-1", sdk.NewInt(1000000))))
+	// requests against the ranged pool (request id != pool id, two deposits and one withdrawal: the pool's request counters differ)
+	w.msg("liq deposit pool 3", liquiditytypes.NewMsgDeposit(1, w.u[1], 3, coins("20000000uasset1,20000000uasset2")))
+	w.msg("liq deposit pool 3 (2)", liquiditytypes.NewMsgDeposit(1, w.u[3], 3, coins("7000000uasset1,7000000uasset2")))
+	w.msg("liq deposit pool 3 (3)", liquiditytypes.NewMsgDeposit(1, w.u[2], 3, coins("3000000uasset1,3000000uasset2")))
+	w.msg("liq withdraw pool 3", liquiditytypes.NewMsgWithdraw(1, w.u[0], 3, sdk.NewCoin("pool1-3", sdk.NewInt(2000000))))
+	w.msg("liq withdraw pool 3 (2)", liquiditytypes.NewMsgWithdraw(1, w.u[1], 3, sdk.NewCoin("pool1-3", sdk.NewInt(1500000))))
 	w.msg("liq order sell", liquiditytypes.NewMsgLimitOrder(1, w.u[2], 1, liquiditytypes.OrderDirectionSell, sdk.NewCoin("uasset1", sdk.NewInt(1003000)),
 		"uasset2", c20Dec("1.05"), sdk.NewInt(1000000), 10*time.Hour))
 	w.msg("liq order buy", liquiditytypes.NewMsgLimitOrder(1, w.u[3], 1, liquiditytypes.OrderDirectionBuy, sdk.NewCoin("uasset2", sdk.NewInt(952850)),
 		"uasset1", c20Dec("0.95"), sdk.NewInt(1000000), 10*time.Hour))
-	w.msg("liq mm order", liquiditytypes.NewMsgMMOrder(1, w.u[1], 1, c20Dec("1.10"), c20Dec("1.06"), sdk.NewInt(3000000), c20Dec("0.94"), c20Dec("0.90"),
+	w.msg("liq mm order", liquiditytypes.NewMsgMMOrder(1, w.u[1], 1, c20Dec("1.09"), c20Dec("1.06"), sdk.NewInt(3000000), c20Dec("0.94"), c20Dec("0.91"),
 		sdk.NewInt(3000000), 10*time.Hour))
-	// … and the same farmer queued again in both pools
+	// orders of a second pair (pair id != app id)
+	w.msg("liq order sell pair 2", liquiditytypes.NewMsgLimitOrder(1, w.u[2], 2, liquiditytypes.OrderDirectionSell, sdk.NewCoin("uasset3", sdk.NewInt(2006000)),
+		"uasset4", c20Dec("1.04"), sdk.NewInt(2000000), 10*time.Hour))
+	w.msg("liq mm order pair 2", liquiditytypes.NewMsgMMOrder(1, w.u[3], 2, c20Dec("1.10"), c20Dec("1.06"), sdk.NewInt(3000000), c20Dec("0.94"), c20Dec("0.90"),
+		sdk.NewInt(3000000), 10*time.Hour))
+	// … and the same farmer queued again in all three pools; a farmer who is ONLY queued, in the ranged pool
 	w.msg("liq farm again", liquiditytypes.NewMsgFarm(1, 1, w.u[0], sdk.NewCoin("pool1-1", sdk.NewInt(500000))))
 	w.msg("liq farm again pool 2", liquiditytypes.NewMsgFarm(1, 2, w.u[0], sdk.NewCoin("pool1-2", sdk.NewInt(300000))))
+	w.msg("liq farm again pool 3", liquiditytypes.NewMsgFarm(1, 3, w.u[0], sdk.NewCoin("pool1-3", sdk.NewInt(200000))))
+	w.msg("liq farm u3 pool 3 (queued only)", liquiditytypes.NewMsgFarm(1, 3, w.u[2], sdk.NewCoin("pool1-3", sdk.NewInt(15000000))))
+	// interactions some blocks after the positions were opened book interest / rewards: vault interest tracker, borrow interest
+	// tracker, total locker rewards per app and asset
+	w.msg("vault 3 late deposit", vaulttypes.NewMsgDepositRequest(w.u[3], 2, 1, 3, sdk.NewInt(500000)))
+	w.msg("lend interest calc", lendtypes.NewMsgCalculateInterestAndRewards(w.u[0].String()))
+	w.msg("lend borrow 4 late deposit", lendtypes.NewMsgDepositBorrow(w.u[0].String(), 4, sdk.NewCoin("ucasset2", sdk.NewInt(1000))))
+	w.msg("locker 1 late deposit", lockertypes.NewMsgDepositAssetRequest(w.u[0].String(), 1, sdk.NewInt(1000), 3, 2))
 	// the most recently created vault is closed again: the vault id counter is ahead of every live vault
 	w.msg("vault last", vaulttypes.NewMsgCreateRequest(w.u[2], 2, 1, sdk.NewInt(300000000), sdk.NewInt(1000000)))
 	w.msg("close vault last", &vaulttypes.MsgCloseRequest{From: w.u[2].String(), AppId: 2, ExtendedPairVaultId: 1, UserVaultId: w.app.VaultKeeper.GetIDForVault(w.ctx)})
@@ -501,7 +641,9 @@ func (w *c20World) buildEsm() {
 	})
 	w.msg("tokenmint", tokenminttypes.NewMsgMintNewTokensRequest(u1, 5, gov.Id))
 	w.extPair(5, 1, "CMDX-E", false, "0.01")
-	w.msg("vault 7 (esm app)", vaulttypes.NewMsgCreateRequest(w.u[0], 5, 4, sdk.NewInt(100000000), sdk.NewInt(1000000)))
+	w.msg("vault 8 (esm app)", vaulttypes.NewMsgCreateRequest(w.u[0], 5, 4, sdk.NewInt(100000000), sdk.NewInt(1000000)))
+	// (ActExternalRewardsVaults accepts an app only if ALL its extended pairs equal the given one: app 5 has exactly one)
+	w.msg("ext rewards vault 2", rewardstypes.NewMsgActivateExternalRewardsVault(5, 4, sdk.NewCoin("ucmdx", sdk.NewInt(1500000)), 10, 1, w.u[0]))
 	w.step("esm trigger params", func() error {
 		return w.app.EsmKeeper.AddESMTriggerParamsForApp(w.ctx, &bindings.MsgAddESMTriggerParams{AppID: 5, TargetValue: sdk.NewCoin("ugov", sdk.NewInt(1000000)),
 			CoolOffPeriod: 1, AssetID: []uint64{2, 3}, Rates: []uint64{1000000, 1000000}})
@@ -516,6 +658,27 @@ func (w *c20World) buildEsm() {
 		w.app.EsmKeeper.SetParams(w.ctx, esmtypes.NewParams([]string{w.u[4].String()}))
 		return nil
 	})
+	w.extPair(4, 2, "STABLE-OLD", true, "0.01")
+	w.step("asset GOVB", func() error {
+		return w.app.AssetKeeper.AddAssetRecords(w.ctx, assettypes.Asset{Name: "GOVB", Denom: "ugovb", Decimals: sdk.NewInt(1000000), IsOnChain: true})
+	})
+	w.step("app govapp", func() error {
+		return w.app.AssetKeeper.AddAppRecords(w.ctx, assettypes.AppData{Name: "govapp", ShortName: "gva", MinGovDeposit: sdk.NewInt(10000000), GovTimeInSeconds: 900})
+	})
+	govb, _ := w.app.AssetKeeper.GetAssetForDenom(w.ctx, "ugovb")
+	w.step("gov token for app 7", func() error {
+		return w.app.AssetKeeper.AddAssetInAppRecords(w.ctx, assettypes.AppData{Id: 7, GenesisToken: []assettypes.MintGenesisToken{
+			{AssetId: govb.Id, GenesisSupply: sdk.NewInt(1000000000), IsGovToken: true, Recipient: u1}}})
+	})
+	w.msg("tokenmint app 7", tokenminttypes.NewMsgMintNewTokensRequest(u1, 7, govb.Id))
+	w.extPair(7, 1, "CMDX-G", false, "0.01")
+	w.msg("vault 9 (gov app)", vaulttypes.NewMsgCreateRequest(w.u[1], 7, 6, sdk.NewInt(100000000), sdk.NewInt(1000000)))
+	w.step("esm trigger params app 7", func() error {
+		return w.app.EsmKeeper.AddESMTriggerParamsForApp(w.ctx, &bindings.MsgAddESMTriggerParams{AppID: 7, TargetValue: sdk.NewCoin("ugovb", sdk.NewInt(1000000)),
+			CoolOffPeriod: 3600, AssetID: []uint64{2, 3}, Rates: []uint64{1000000, 1000000}})
+	})
+	w.msg("esm deposit app 7", esmtypes.NewMsgDeposit(u1, 7, sdk.NewCoin("ugovb", sdk.NewInt(300000))))
+	w.msg("stable mint create 2", vaulttypes.NewMsgCreateStableMintRequest(w.u[1], 4, 5, sdk.NewInt(30000000)))
 	w.msg("kill switch app 6", esmtypes.NewMsgKillRequest(w.u[4], esmtypes.KillSwitchParams{AppId: 6, BreakerEnable: true}))
 }
 
@@ -540,22 +703,81 @@ func (w *c20World) buildOracle() {
 	})
 }
 
-func (w *c20World) v1Bids() {
+// second-generation bids (block 4)
+func (w *c20World) v2Bids() {
 	coin := func(d string, n int64) sdk.Coin { return sdk.NewCoin(d, sdk.NewInt(n)) }
-	w.msg("V1 dutch bid partial", auctiontypes.NewMsgPlaceDutchBid(w.u[2].String(), 1, coin("uasset2", 100000), 4, 3))
-	w.msg("V1 dutch bid full", auctiontypes.NewMsgPlaceDutchBid(w.u[3].String(), 2, coin("uasset2", 1000000), 4, 3))
-	w.msg("V1 dutch lend bid partial", auctiontypes.NewMsgPlaceDutchLendBid(w.u[2].String(), 1, coin("uasset1", 10000000), 3, 3))
-	if la, err := w.app.AuctionKeeper.GetDutchLendAuction(w.ctx, 3, 3, 2); err == nil {
-		w.msg("V1 dutch lend bid full", auctiontypes.NewMsgPlaceDutchLendBid(w.u[3].String(), 2, la.OutflowTokenCurrentAmount, 3, 3))
-	} else {
-		w.fail = append(w.fail, "lend auction 2 not found")
-	}
 	w.msg("V2 market bid 2", auctionsV2types.NewMsgPlaceMarketBid(w.u[2].String(), 2, coin("uasset3", 1120000)))
 	// an externally initiated liquidation and a full bid on it (fee statistics of external initiators)
 	w.msg("V2 external liquidation", liqV2types.NewMsgLiquidateExternalKeeperRequest(w.u[3], 2, w.u[3].String(), coin("uasset2", 1000000),
 		coin("uasset3", 500000), 2, 3, false))
 	extID := w.app.NewaucKeeper.GetAuctionID(w.ctx)
 	w.msg("V2 bid on external", auctionsV2types.NewMsgPlaceMarketBid(w.u[2].String(), extID, coin("uasset3", 550000)))
+}
+
+// first-generation begin blocker and bids (block 5, a minute later). x/auction's BeginBlocker is no longer called by the module
+// (x/auction/module.go:167-169) but the records it wrote exist on a chain with history: it is run once here — it starts a surplus
+// auction (app 2, asset 4) and a debt auction (app 2, asset 3) from the collector's books and lets the dutch auction prices decay.
+func (w *c20World) v1Bids() {
+	coin := func(d string, n int64) sdk.Coin { return sdk.NewCoin(d, sdk.NewInt(n)) }
+	w.step("V1 auction params app 2", func() error {
+		return w.app.AuctionKeeper.AddAuctionParams(w.ctx, &bindings.MsgAddAuctionParams{AppID: 2, AuctionDurationSeconds: 300, Buffer: c20Dec("1.2"),
+			Cusp: c20Dec("0.6"), Step: 1, PriceFunctionType: 1, SurplusID: 1, DebtID: 2, DutchID: 3, BidDurationSeconds: 300})
+	})
+	w.step("V1 surplus/debt mappings", func() error {
+		if err := w.app.CollectorKeeper.WasmSetAuctionMappingForApp(w.ctx, &bindings.MsgSetAuctionMappingForApp{AppID: 2, AssetIDs: 3,
+			IsSurplusAuctions: false, IsDebtAuctions: true, IsDistributor: false, AssetOutOraclePrices: false, AssetOutPrices: 1000000}); err != nil {
+			return err
+		}
+		hbr, _ := w.app.AssetKeeper.GetAssetForDenom(w.ctx, "uharbor")
+		if err := w.app.CollectorKeeper.WasmSetCollectorLookupTable(w.ctx, &bindings.MsgSetCollectorLookupTable{AppID: 2, CollectorAssetID: 4,
+			SecondaryAssetID: hbr.Id, SurplusThreshold: sdk.NewInt(10000000), DebtThreshold: sdk.NewInt(5000000), LockerSavingRate: c20Dec("0.0"),
+			LotSize: sdk.NewInt(2000000), BidFactor: c20Dec("0.01"), DebtLotSize: sdk.NewInt(2000000)}); err != nil {
+			return err
+		}
+		if err := w.app.CollectorKeeper.WasmSetAuctionMappingForApp(w.ctx, &bindings.MsgSetAuctionMappingForApp{AppID: 2, AssetIDs: 4,
+			IsSurplusAuctions: true, IsDebtAuctions: false, IsDistributor: false, AssetOutOraclePrices: false, AssetOutPrices: 1000000}); err != nil {
+			return err
+		}
+		// the collector's books: net fees of (app 2, asset 4) above the surplus threshold, of (app 4, asset 3) enough to cover an auction loss
+		if err := w.app.CollectorKeeper.SetNetFeeCollectedData(w.ctx, 2, 4, sdk.NewInt(15000000)); err != nil {
+			return err
+		}
+		if err := w.app.CollectorKeeper.SetNetFeeCollectedData(w.ctx, 4, 3, sdk.NewInt(5000000)); err != nil {
+			return err
+		}
+		c := sdk.NewCoins(coin("uasset4", 15000000), coin("uasset3", 5000000))
+		if err := w.app.BankKeeper.MintCoins(w.ctx, auctionsV2types.ModuleName, c); err != nil {
+			return err
+		}
+		return w.app.BankKeeper.SendCoinsFromModuleToModule(w.ctx, auctionsV2types.ModuleName, collectortypes.ModuleName, c)
+	})
+	w.step("V1 auction begin blocker", func() error {
+		auction.BeginBlocker(w.ctx, w.app.AuctionKeeper, w.app.AssetKeeper, w.app.CollectorKeeper, w.app.EsmKeeper)
+		return nil
+	})
+	w.msg("V1 dutch bid partial", auctiontypes.NewMsgPlaceDutchBid(w.u[2].String(), 1, coin("uasset2", 50000), 4, 3))
+	// the most recent dutch auction is bought completely after its price has decayed below the debt: the collector covers the loss
+	w.msg("V1 dutch bid full", auctiontypes.NewMsgPlaceDutchBid(w.u[3].String(), 3, coin("uasset2", 1000000), 4, 3))
+	w.msg("V1 dutch lend bid partial", auctiontypes.NewMsgPlaceDutchLendBid(w.u[2].String(), 1, coin("uasset1", 10000000), 3, 3))
+	if la, err := w.app.AuctionKeeper.GetDutchLendAuction(w.ctx, 3, 3, 2); err == nil {
+		w.msg("V1 dutch lend bid full", auctiontypes.NewMsgPlaceDutchLendBid(w.u[3].String(), 2, la.OutflowTokenCurrentAmount, 3, 3))
+	} else {
+		w.fail = append(w.fail, "lend auction 2 not found")
+	}
+	// bids on the first-generation surplus auction (the bids themselves are not exported: G07)
+	w.fund(w.u[2], "uharbor", 1000000000)
+	w.fund(w.u[5], "uharbor", 1000000000)
+	if sas := w.app.AuctionKeeper.GetSurplusAuctions(w.ctx, 2); len(sas) > 0 {
+		w.msg("V1 surplus bid", auctiontypes.NewMsgPlaceSurplusBid(w.u[2].String(), sas[0].AuctionId, sdk.NewCoin(sas[0].BuyToken.Denom, sas[0].Bid.Amount.AddRaw(1000)), 2, sas[0].AuctionMappingId))
+	} else if !w.skipped("V1 ") {
+		w.fail = append(w.fail, "no first-generation surplus auction was started")
+	}
+	if das := w.app.AuctionKeeper.GetDebtAuctions(w.ctx, 2); len(das) > 0 {
+		w.msg("V1 debt bid", auctiontypes.NewMsgPlaceDebtBid(w.u[3].String(), das[0].AuctionId, sdk.NewCoin(das[0].ExpectedMintedToken.Denom, das[0].AuctionedToken.Amount.SubRaw(1000)),
+			das[0].ExpectedUserToken, 2, das[0].AuctionMappingId))
+	} else if !w.skipped("V1 ") {
+		w.fail = append(w.fail, "no first-generation debt auction was started")
+	}
 }
 
 // nextBlock ends the current block, commits, and begins the next one dt later.
@@ -637,225 +859,13 @@ var c20OpModules = map[string][]string{
 	"locker_withdraw": {"locker"}, "locker_deposit": {"locker", "rewards"}, "locker_reward_calc": {"locker", "collector", "rewards"},
 	"new_lend_id": {"lend"}, "new_borrow_id": {"lend", "market"}, "lend_deposit_withdraw": {"lend"},
 	"new_order_id": {"liquidity"}, "new_pair_id": {"liquidity"}, "cancel_order": {"liquidity"}, "liq_deposit_request_id": {"liquidity"},
-	"liq_unfarm": {"liquidity"}, "v2_limit_bid_id": {"auctionsV2"}, "v2_limit_bid_withdraw": {"auctionsV2"},
+	"liq_unfarm": {"liquidity"}, "liq_unfarm_queued": {"liquidity"}, "v2_limit_bid_id": {"auctionsV2"}, "v2_limit_bid_withdraw": {"auctionsV2"},
 	"v2_market_bid_id": {"auctionsV2", "liquidationsV2", "market"}, "v2_liquidate_vault_id": {"liquidationsV2", "auctionsV2", "vault", "market"},
 	"v1_dutch_bid_id": {"auction", "liquidation", "vault"}, "v1_lend_bid": {"auction", "liquidation", "lend"},
 	"new_gauge_id": {"rewards", "liquidity"}, "ext_rewards_locker_id": {"rewards", "locker"}, "ext_rewards_stable_id": {"rewards"},
 	"second_gov_token": {"asset"}, "asset_new_ids": {"asset"}, "tokenmint_new": {"tokenmint", "asset"}, "esm_redeem": {"esm"},
 	"esm_deposit": {"esm", "tokenmint"}, "market_prices": {"market"},
 	"faithful.active_prices": {"market", "bandoracle"}, "faithful.oracle_feed_config": {"bandoracle"}, "faithful.new_vault": {"vault", "market", "bandoracle"},
-}
-
-func c20Continuation(us []sdk.AccAddress) []c20Op {
-	coin := func(d string, n int64) sdk.Coin { return sdk.NewCoin(d, sdk.NewInt(n)) }
-	m := func(msg func() sdk.Msg, obs func(app *chain.App, ctx sdk.Context) string) func(app *chain.App, ctx sdk.Context) string {
-		return func(app *chain.App, ctx sdk.Context) string {
-			ok, d := c20Deliver(app, ctx, msg())
-			if !ok {
-				if os.Getenv("C20_VERBOSE") != "" {
-					fmt.Println("   continuation op failed:", d)
-				}
-				return "err"
-			}
-			if obs == nil {
-				return "ok"
-			}
-			return "ok:" + obs(app, ctx)
-		}
-	}
-	u6 := us[5]
-	return []c20Op{
-		{"new_vault_id", m(func() sdk.Msg {
-			return vaulttypes.NewMsgCreateRequest(u6, 2, 1, sdk.NewInt(100000000), sdk.NewInt(1000000))
-		},
-			func(a *chain.App, c sdk.Context) string { return u(a.VaultKeeper.GetIDForVault(c)) })},
-		{"vault_deposit_draw", func(a *chain.App, c sdk.Context) string {
-			// the one vault that is still open (vault 3 of user 4): deposit collateral, draw debt
-			ok1, _ := c20Deliver(a, c, vaulttypes.NewMsgDepositRequest(us[3], 2, 1, 3, sdk.NewInt(1000000)))
-			ok2, _ := c20Deliver(a, c, vaulttypes.NewMsgDrawRequest(us[3], 2, 1, 3, sdk.NewInt(100000)))
-			v, _ := a.VaultKeeper.GetVault(c, 3)
-			return fmt.Sprintf("%t/%t/%s/%s", ok1, ok2, v.AmountIn, v.AmountOut)
-		}},
-		{"locker_deposit", m(func() sdk.Msg {
-			return lockertypes.NewMsgDepositAssetRequest(us[1].String(), 2, sdk.NewInt(700000), 3, 2)
-		},
-			func(a *chain.App, c sdk.Context) string {
-				l, _ := a.LockerKeeper.GetLocker(c, 2)
-				return l.Depositor + "/" + l.NetBalance.String()
-			})},
-		{"locker_reward_calc", m(func() sdk.Msg { return lockertypes.NewMsgLockerRewardCalcRequest(us[1].String(), 2, 2) },
-			func(a *chain.App, c sdk.Context) string {
-				l, _ := a.LockerKeeper.GetLocker(c, 2)
-				return l.NetBalance.String() + "/" + l.ReturnsAccumulated.String()
-			})},
-		{"lend_deposit_withdraw", func(a *chain.App, c sdk.Context) string {
-			ok1, d1 := c20Deliver(a, c, lendtypes.NewMsgDeposit(us[0].String(), 2, coin("uasset2", 5000000)))
-			ok2, d2 := c20Deliver(a, c, lendtypes.NewMsgWithdraw(us[0].String(), 2, coin("uasset2", 2000000)))
-			if os.Getenv("C20_VERBOSE") != "" {
-				fmt.Println("   lend deposit/withdraw:", d1, "|", d2)
-			}
-			l, _ := a.LendKeeper.GetLend(c, 2)
-			return fmt.Sprintf("%t/%t/%s", ok1, ok2, l.AmountIn.Amount)
-		}},
-		{"liq_deposit_request_id", m(func() sdk.Msg {
-			cs, _ := sdk.ParseCoinsNormalized("3000000uasset1,3000000uasset2")
-			return liquiditytypes.NewMsgDeposit(1, u6, 1, cs)
-		}, func(a *chain.App, c sdk.Context) string {
-			p, _ := a.LiquidityKeeper.GetPool(c, 1, 1)
-			return u(p.LastDepositRequestId) + "/" + u(p.LastWithdrawRequestId)
-		})},
-		{"liq_unfarm", m(func() sdk.Msg {
-			return liquiditytypes.NewMsgUnfarm(1, 1, us[0], sdk.NewCoin("pool1-1", sdk.NewInt(400000)))
-		}, nil)},
-		{"asset_new_ids", func(a *chain.App, c sdk.Context) string {
-			cc, write := c.CacheContext()
-			if err := a.AssetKeeper.AddAssetRecords(cc, assettypes.Asset{Name: "NEWASSET", Denom: "unewasset", Decimals: sdk.NewInt(1000000), IsOnChain: true}); err != nil {
-				return "err"
-			}
-			if err := a.AssetKeeper.AddAppRecords(cc, assettypes.AppData{Name: "freshapp", ShortName: "frsh", MinGovDeposit: sdk.NewInt(0)}); err != nil {
-				return "err"
-			}
-			if err := a.AssetKeeper.AddPairsRecords(cc, assettypes.Pair{AssetIn: 4, AssetOut: 3}); err != nil {
-				return "err"
-			}
-			write()
-			return fmt.Sprintf("ok:%d/%d/%d/%d", a.AssetKeeper.GetAssetID(c), a.AssetKeeper.GetAppID(c), a.AssetKeeper.GetPairID(c), a.AssetKeeper.GetPairsVaultID(c))
-		}},
-		{"tokenmint_new", func(a *chain.App, c sdk.Context) string {
-			// a further (non-governance) genesis token of app 5 is registered and minted
-			cc, write := c.CacheContext()
-			if err := a.AssetKeeper.AddAssetRecords(cc, assettypes.Asset{Name: "REWARDTKN", Denom: "urewardtkn", Decimals: sdk.NewInt(1000000), IsOnChain: true}); err != nil {
-				return "err"
-			}
-			rt, _ := a.AssetKeeper.GetAssetForDenom(cc, "urewardtkn")
-			if err := a.AssetKeeper.AddAssetInAppRecords(cc, assettypes.AppData{Id: 5, GenesisToken: []assettypes.MintGenesisToken{
-				{AssetId: rt.Id, GenesisSupply: sdk.NewInt(5000), IsGovToken: false, Recipient: u6.String()}}}); err != nil {
-				return "err"
-			}
-			write()
-			ok, _ := c20Deliver(a, c, tokenminttypes.NewMsgMintNewTokensRequest(u6.String(), 5, rt.Id))
-			tm, _ := a.TokenmintKeeper.GetTokenMint(c, 5)
-			return fmt.Sprintf("%t/%d", ok, len(tm.MintedTokens))
-		}},
-		{"esm_deposit", m(func() sdk.Msg { return esmtypes.NewMsgDeposit(us[0].String(), 5, coin("ugov", 1000)) },
-			func(a *chain.App, c sdk.Context) string {
-				d, _ := a.EsmKeeper.GetCurrentDepositStats(c, 5)
-				return d.Balance.String()
-			})},
-		{"market_prices", func(a *chain.App, c sdk.Context) string {
-			var sb strings.Builder
-			for id := uint64(1); id <= 12; id++ {
-				p, err := a.MarketKeeper.GetLatestPrice(c, id)
-				if err != nil {
-					sb.WriteString("-,")
-				} else {
-					sb.WriteString(u(p) + ",")
-				}
-			}
-			return sb.String()
-		}},
-		{"stable_mint_deposit", m(func() sdk.Msg { return vaulttypes.NewMsgDepositStableMintRequest(u6, 2, 2, sdk.NewInt(3000000), 1) },
-			func(a *chain.App, c sdk.Context) string {
-				v, _ := a.VaultKeeper.GetStableMintVault(c, 1)
-				return v.AmountIn.String() + "/" + u(uint64(len(a.VaultKeeper.GetStableMintVaultRewardsOfAllApps(c))))
-			})},
-		{"new_locker_id", m(func() sdk.Msg { return lockertypes.NewMsgCreateLockerRequest(u6.String(), sdk.NewInt(1000000), 3, 2) },
-			func(a *chain.App, c sdk.Context) string { return u(a.LockerKeeper.GetIDForLocker(c)) })},
-		{"locker_withdraw", m(func() sdk.Msg {
-			return lockertypes.NewMsgWithdrawAssetRequest(us[0].String(), 1, sdk.NewInt(500000), 3, 2)
-		},
-			func(a *chain.App, c sdk.Context) string {
-				l, _ := a.LockerKeeper.GetLocker(c, 1)
-				return l.Depositor + "/" + l.NetBalance.String()
-			})},
-		{"new_lend_id", m(func() sdk.Msg { return lendtypes.NewMsgLend(u6.String(), 1, coin("uasset1", 7000000), 1, 3) },
-			func(a *chain.App, c sdk.Context) string { return u(a.LendKeeper.GetUserLendIDCounter(c)) })},
-		{"new_borrow_id", func(a *chain.App, c sdk.Context) string {
-			ok, d := c20Deliver(a, c, lendtypes.NewMsgBorrow(u6.String(), a.LendKeeper.GetUserLendIDCounter(c), 1, false, coin("ucasset1", 5000000), coin("uasset2", 1000000)))
-			if !ok {
-				if os.Getenv("C20_VERBOSE") != "" {
-					fmt.Println("   continuation op failed:", d)
-				}
-				return "err"
-			}
-			return "ok:" + u(a.LendKeeper.GetUserBorrowIDCounter(c))
-		}},
-		{"new_order_id", m(func() sdk.Msg {
-			return liquiditytypes.NewMsgLimitOrder(1, u6, 1, liquiditytypes.OrderDirectionSell, coin("uasset1", 2006000), "uasset2", c20Dec("1.07"), sdk.NewInt(2000000), time.Hour)
-		}, func(a *chain.App, c sdk.Context) string {
-			p, _ := a.LiquidityKeeper.GetPair(c, 1, 1)
-			return u(p.LastOrderId)
-		})},
-		{"new_pair_id", m(func() sdk.Msg { return liquiditytypes.NewMsgCreatePair(1, u6, "uasset2", "uasset4") },
-			func(a *chain.App, c sdk.Context) string { return u(a.LiquidityKeeper.GetLastPairID(c, 1)) })},
-		{"cancel_order", m(func() sdk.Msg { return liquiditytypes.NewMsgCancelOrder(1, us[2], 1, 1) }, nil)},
-		{"v2_limit_bid_id", m(func() sdk.Msg {
-			return auctionsV2types.NewMsgDepositLimitBid(u6.String(), 2, 3, sdk.NewInt(4), coin("uasset3", 1500000))
-		},
-			func(a *chain.App, c sdk.Context) string { return u(a.NewaucKeeper.GetLimitAuctionBidID(c)) })},
-		{"v2_limit_bid_withdraw", m(func() sdk.Msg {
-			return auctionsV2types.NewMsgWithdrawLimitBid(us[2].String(), 2, 3, sdk.NewInt(2), coin("uasset3", 400000))
-		}, nil)},
-		{"v2_market_bid_id", m(func() sdk.Msg { return auctionsV2types.NewMsgPlaceMarketBid(u6.String(), 1, coin("uasset3", 100000)) },
-			func(a *chain.App, c sdk.Context) string { return u(a.NewaucKeeper.GetUserBidID(c)) })},
-		{"v2_liquidate_vault_id", func(a *chain.App, c sdk.Context) string {
-			// the safe vault 3 becomes unsafe after a price crash and is liquidated by a user message
-			tw, _ := a.MarketKeeper.GetTwa(c, 2)
-			tw.Twa, tw.PriceValue = 10000, []uint64{10000}
-			a.MarketKeeper.SetTwa(c, tw)
-			ok, _ := c20Deliver(a, c, liqV2types.NewMsgLiquidateInternalKeeperRequest(u6, 0, 3))
-			if !ok {
-				return "err"
-			}
-			return "ok:" + u(a.NewliqKeeper.GetLockedVaultID(c)) + "/" + u(a.NewaucKeeper.GetAuctionID(c)) + "/" + u(uint64(len(a.NewliqKeeper.GetLockedVaults(c))))
-		}},
-		{"v1_dutch_bid_id", m(func() sdk.Msg { return auctiontypes.NewMsgPlaceDutchBid(u6.String(), 1, coin("uasset2", 900000), 4, 3) },
-			func(a *chain.App, c sdk.Context) string { return u(a.AuctionKeeper.GetUserBiddingID(c)) })},
-		{"v1_lend_bid", func(a *chain.App, c sdk.Context) string {
-			// buy what is left of the first lend auction (the second, most recent one was completed before the export)
-			la, err := a.AuctionKeeper.GetDutchLendAuction(c, 3, 3, 1)
-			if err != nil {
-				return "err"
-			}
-			ok, _ := c20Deliver(a, c, auctiontypes.NewMsgPlaceDutchLendBid(u6.String(), 1, la.OutflowTokenCurrentAmount, 3, 3))
-			if !ok {
-				return "err"
-			}
-			return "ok:" + la.OutflowTokenCurrentAmount.Amount.String()
-		}},
-		{"new_gauge_id", m(func() sdk.Msg {
-			return &rewardstypes.MsgCreateGauge{From: u6.String(), AppId: 1, StartTime: time.Unix(2000009000, 0).UTC(), GaugeTypeId: 1,
-				TriggerDuration: 24 * time.Hour, DepositAmount: coin("ucmdx", 5000000), TotalTriggers: 5,
-				Kind: &rewardstypes.MsgCreateGauge_LiquidityMetaData{LiquidityMetaData: &rewardstypes.LiquidtyGaugeMetaData{PoolId: 1}}}
-		}, func(a *chain.App, c sdk.Context) string { return u(a.Rewardskeeper.GetGaugeID(c)) })},
-		{"ext_rewards_locker_id", m(func() sdk.Msg {
-			return rewardstypes.NewMsgActivateExternalRewardsLockers(2, 3, coin("ucmdx", 1000000), 5, 1, u6)
-		},
-			func(a *chain.App, c sdk.Context) string {
-				return u(a.Rewardskeeper.GetExternalRewardsLockersID(c)) + "/" + u(uint64(len(a.Rewardskeeper.GetExternalRewardsLockers(c))))
-			})},
-		{"ext_rewards_stable_id", m(func() sdk.Msg {
-			return rewardstypes.NewMsgActivateExternalRewardsStableVault(2, 1, 3, coin("ucmdx", 1000000), 5, 100, u6)
-		},
-			func(a *chain.App, c sdk.Context) string {
-				return u(uint64(len(a.Rewardskeeper.GetAllExternalRewardStableVault(c))))
-			})},
-		{"second_gov_token", func(a *chain.App, c sdk.Context) string {
-			// governance transition: an app must not get a second governance token
-			cc, write := c.CacheContext()
-			if err := a.AssetKeeper.AddAssetRecords(cc, assettypes.Asset{Name: "GOVTWO", Denom: "ugov2", Decimals: sdk.NewInt(1000000), IsOnChain: true}); err != nil {
-				return "err"
-			}
-			g2, _ := a.AssetKeeper.GetAssetForDenom(cc, "ugov2")
-			if err := a.AssetKeeper.AddAssetInAppRecords(cc, assettypes.AppData{Id: 5, GenesisToken: []assettypes.MintGenesisToken{
-				{AssetId: g2.Id, GenesisSupply: sdk.NewInt(1000), IsGovToken: true, Recipient: u6.String()}}}); err != nil {
-				return "err"
-			}
-			write()
-			return "ok"
-		}},
-		{"esm_redeem", m(func() sdk.Msg { return esmtypes.NewMsgCollateralRedemption(5, coin("uasset3", 100000), us[0]) }, nil)},
-	}
 }
 
 func c20Balances(app *chain.App, ctx sdk.Context) map[string]string {
@@ -906,10 +916,13 @@ func c20Cases() []c20Case {
 func TestC20(t *testing.T) {
 	tr := OpenTrace(t, "c20.trace")
 	defer tr.Close(t)
+	c20Pop = c20NewPopulation()
 	for _, c := range c20Cases() {
 		c20RunCase(t, tr, c)
 		tr.Count("case:" + strings.SplitN(c.name, "+", 2)[0])
 	}
+	c20Pop.report(tr)
+	c20MsgReport(tr)
 	// which continuation operations exercise which module's restored state
 	matrix := map[string][]string{}
 	for _, s := range c20Stores {
@@ -926,7 +939,9 @@ func TestC20(t *testing.T) {
 	tr.Set("continuation_matrix", matrix)
 }
 
-func c20RunCase(t *testing.T, tr *Trace, cs c20Case) {
+// c20BuildWorld drives a fresh application through the construction blocks of a case (everything up to, not including, the end of
+// the last block); the construction is deterministic: two worlds of one case are identical
+func c20BuildWorld(t *testing.T, tr *Trace, cs c20Case, report bool) *c20World {
 	a := chain.Setup(t, false)
 	h := a.LastBlockHeight() + 1
 	now := time.Unix(2000000000, 0).UTC()
@@ -934,7 +949,6 @@ func c20RunCase(t *testing.T, tr *Trace, cs c20Case) {
 	for i := 1; i <= 6; i++ {
 		w.u = append(w.u, c20Addr(i))
 	}
-	tr.Line("gen.begin", cs.name, u(seed()))
 	w.buildOracle()
 	w.buildBase()
 	w.buildLiquidity()
@@ -942,21 +956,33 @@ func c20RunCase(t *testing.T, tr *Trace, cs c20Case) {
 	w.buildPositions()
 	w.buildLocker()
 	w.buildEsm()
-	w.nextBlock(6 * time.Second) // block 4: ESM price snapshot; bids on both auction generations
+	w.nextBlock(6 * time.Second) // block 4: ESM price snapshot; bids on the second auction generation
+	w.v2Bids()
+	w.nextBlock(60 * time.Second) // block 5: ESM cool-off over; first-generation begin blocker and bids
 	w.v1Bids()
-	w.nextBlock(6 * time.Second) // block 5: ESM cool-off over
+	w.nextBlock(6 * time.Second)
 	for i := 0; i <= cs.extraBlocks; i++ {
 		w.nextBlock(6 * time.Second)
 	}
 	w.buildLiquidityPending()
 	for _, f := range w.fail {
+		if !report {
+			break
+		}
 		if os.Getenv("C20_VERBOSE") != "" {
 			t.Logf("BUILD FAIL %s: %s", cs.name, f)
 		}
 		tr.Line("gen.note", "build step failed: "+strings.ReplaceAll(f, "\t", " "))
 	}
-	h = w.ctx.BlockHeight()
-	now = w.ctx.BlockTime()
+	return w
+}
+
+func c20RunCase(t *testing.T, tr *Trace, cs c20Case) {
+	tr.Line("gen.begin", cs.name, u(seed()))
+	w := c20BuildWorld(t, tr, cs, true)
+	a := w.app
+	h := w.ctx.BlockHeight()
+	now := w.ctx.BlockTime()
 	a.EndBlock(abci.RequestEndBlock{Height: h})
 	a.Commit()
 
@@ -971,6 +997,11 @@ func c20RunCase(t *testing.T, tr *Trace, cs c20Case) {
 	var genesisMap map[string]json.RawMessage
 	if err := json.Unmarshal(exp.AppState, &genesisMap); err != nil {
 		t.Fatal(err)
+	}
+	for n, raw := range genesisMap {
+		if c20IsDefi(n) {
+			c20Pop.addState(tr, c20ModuleDir(n), raw)
+		}
 	}
 	enc := chain.MakeEncodingConfig()
 	refused := false
@@ -1117,7 +1148,15 @@ func c20RunCase(t *testing.T, tr *Trace, cs c20Case) {
 	tr.Line("gen.note", "workload runs on a second re-imported chain with the oracle validation result re-established")
 	b = b2
 	ctxs[1] = begin(b, "B2")
-	ops := c20Continuation(w.u)
+	c20RunContinuation(tr, w.u, a, b, ctxs, hdr)
+}
+
+// c20RunContinuation applies the continuation workload to both chains (block `hdr` has begun on both), processes two more blocks
+// (one a day later) and compares all balances.
+func c20RunContinuation(tr *Trace, us []sdk.AccAddress, a, b *chain.App, ctxs [2]sdk.Context, hdr tmproto.Header) {
+	ops := c20Continuation(us)
+	c20ContApp = a
+	defer func() { c20ContApp = nil }()
 	for _, op := range ops {
 		ra, rb := op.run(a, ctxs[0]), op.run(b, ctxs[1])
 		tr.Line("gen.op", op.name, ra, rb)
@@ -1126,13 +1165,13 @@ func c20RunCase(t *testing.T, tr *Trace, cs c20Case) {
 		} else {
 			tr.Count("cont:different")
 		}
-		if strings.HasPrefix(ra, "ok") {
-			tr.Count("cont:A-ok")
+		if strings.HasPrefix(ra, "err") || strings.HasPrefix(ra, "false") || ra == "none" {
+			tr.Count("cont:A-refused")
 		} else {
-			tr.Count("cont:A-err")
+			tr.Count("cont:A-accepted")
 		}
 	}
-	hdr2 := tmproto.Header{Height: exp.Height + 1, Time: hdr.Time.Add(25 * time.Hour)}
+	hdr2 := tmproto.Header{Height: hdr.Height + 1, Time: hdr.Time.Add(25 * time.Hour)}
 	for i, app := range []*chain.App{a, b} {
 		p, m := try(func() {
 			app.EndBlock(abci.RequestEndBlock{Height: hdr.Height})
@@ -1146,6 +1185,11 @@ func c20RunCase(t *testing.T, tr *Trace, cs c20Case) {
 		ctxs[i] = app.BaseApp.NewContext(false, hdr2)
 	}
 	ba, bb := c20Balances(a, ctxs[0]), c20Balances(b, ctxs[1])
+	if c20SeparateSetups {
+		// two applications from two app.Setup calls (migration cases) differ in the randomly generated genesis / validator account:
+		// accounts that exist on one side only are matched by what they hold
+		c20MatchForeignAccounts(ba, bb)
+	}
 	keys := map[string]bool{}
 	for k := range ba {
 		keys[k] = true
